@@ -1,24 +1,20 @@
 """C12: surface primitives self-consistent; transforms preserve point sets (translation of quadrics; planes; solver signs)."""
-from vkit.extract import Rule
+from vkit.extract import Rule, MulToUF
 from vkit.runner import Unit
 
 STR = "src/orange/surf/detail/SurfaceTranslator.cc"
 HDR = '#include "celer.h"\n'
 
 SQ_MODEL = """
-/* exact-integer abstraction of real_type for this unit (VERIF_REAL_AS_INT): the property is a polynomial identity, decided exactly;
-   floating-point rounding of the coefficients is NOT covered. Ranges keep every product inside 64 bits. */
+/* products are an uninterpreted COMMUTATIVE function MUL (no solver here decides 53-bit or 64-bit multiplications): the unit decides
+   WHICH products enter WHICH coefficient with which sign and factor, exactly; additions/subtractions are real IEEE operations */
+double __CPROVER_uninterpreted_mul(double, double);
+#define MUL(a, b) (((double)(a)) <= ((double)(b)) ? __CPROVER_uninterpreted_mul((a), (b)) : __CPROVER_uninterpreted_mul((b), (a)))
 typedef struct { real_type v[3]; } Real3;
 typedef struct { real_type second[3]; real_type first[3]; real_type zeroth; } SimpleQuadric;   /* a x^2 + b y^2 + c z^2 + d x + e y + f z + g */
 typedef struct { Real3 tr_; } Translation;
 typedef struct { Translation const* tr_; } SurfaceTranslator;
-#define IPOW2(x) ((x) * (x))      /* ipow<2> */
-static real_type sq_eval(SimpleQuadric const* s, real_type const* x)
-{
-    real_type r = s->zeroth;
-    for (int i = 0; i < 3; ++i) r += s->second[i] * x[i] * x[i] + s->first[i] * x[i];
-    return r;
-}
+#define IPOW2(x) MUL((x), (x))      /* ipow<2>(x) == x * x */
 """
 SQ_RULES = [
     Rule(r"auto const second = make_array\(other\.second\(\)\);", "real_type second[3] = {other->second[0], other->second[1], other->second[2]};", 1, note="make_array(Span) -> array copy"),
@@ -28,6 +24,7 @@ SQ_RULES = [
     Rule(r"for \(auto i = to_int\(Axis::x\); i < to_int\(Axis::size_\); \+\+i\)", "for (int i = 0; i < 3; ++i)", 1, note="Axis loop: to_int(Axis::x) == 0, to_int(Axis::size_) == 3 (bound)"),
     Rule(r"ipow<2>\(([^()]*)\)", r"IPOW2(\1)", "*", note="ipow<2>(x) == x*x"),
     Rule(r"other\.first\(\)\[i\]", "other->first[i]", "*", note="accessor"),
+    MulToUF(),
     Rule(r"return SimpleQuadric\{second, first, zeroth\};", "SimpleQuadric res_ = {{second[0], second[1], second[2]}, {first[0], first[1], first[2]}, zeroth}; return res_;", 1, note="aggregate construction"),
 ]
 
@@ -35,25 +32,40 @@ SQ_RULES = [
 def build_translate_sq(ctx):
     pc = ctx.func(STR, r"^SimpleQuadric SurfaceTranslator::operator\(\)\(SimpleQuadric const& other\) const", SQ_RULES, name="SurfaceTranslator::operator()(SimpleQuadric)")
     return (HDR + SQ_MODEL + """
-real_type g_x[3];     /* ghost: an arbitrary point of the original frame */
-#define RNG(v) ((v) >= -1000 && (v) <= 1000)
+#define NN(v) (!__CPROVER_isnand(v))
 SimpleQuadric STR_sq(SurfaceTranslator const* self, SimpleQuadric const* other)
 __CPROVER_requires(self != 0 && self->tr_ != 0 && other != 0)
-__CPROVER_requires(RNG(other->second[0]) && RNG(other->second[1]) && RNG(other->second[2]) && RNG(other->first[0]) && RNG(other->first[1]) && RNG(other->first[2]) && RNG(other->zeroth))
-__CPROVER_requires(RNG(self->tr_->tr_.v[0]) && RNG(self->tr_->tr_.v[1]) && RNG(self->tr_->tr_.v[2]) && RNG(g_x[0]) && RNG(g_x[1]) && RNG(g_x[2]))
+__CPROVER_requires(NN(other->second[0]) && NN(other->second[1]) && NN(other->second[2]) && NN(other->first[0]) && NN(other->first[1]) && NN(other->first[2]) && NN(other->zeroth))
+__CPROVER_requires(NN(self->tr_->tr_.v[0]) && NN(self->tr_->tr_.v[1]) && NN(self->tr_->tr_.v[2]))
 __CPROVER_assigns()
-/* the translated surface takes at the translated point x + t exactly the value the original takes at x (so senses agree and the point sets correspond) */
-__CPROVER_ensures(__CPROVER_return_value.zeroth
-                  + __CPROVER_return_value.second[0] * (g_x[0] + self->tr_->tr_.v[0]) * (g_x[0] + self->tr_->tr_.v[0]) + __CPROVER_return_value.first[0] * (g_x[0] + self->tr_->tr_.v[0])
-                  + __CPROVER_return_value.second[1] * (g_x[1] + self->tr_->tr_.v[1]) * (g_x[1] + self->tr_->tr_.v[1]) + __CPROVER_return_value.first[1] * (g_x[1] + self->tr_->tr_.v[1])
-                  + __CPROVER_return_value.second[2] * (g_x[2] + self->tr_->tr_.v[2]) * (g_x[2] + self->tr_->tr_.v[2]) + __CPROVER_return_value.first[2] * (g_x[2] + self->tr_->tr_.v[2])
-                  == other->zeroth + other->second[0] * g_x[0] * g_x[0] + other->first[0] * g_x[0] + other->second[1] * g_x[1] * g_x[1] + other->first[1] * g_x[1] + other->second[2] * g_x[2] * g_x[2] + other->first[2] * g_x[2])
+/* coefficients of f'(x') = f(x' - t), expanded:  a' = a;  d' = d - 2 a t;  g' = g + sum_i (a_i t_i^2 - d_i t_i)
+   (lemma c12_translate_sq_lemma: with these coefficients f'(x + t) == f(x) for every point x) */
+#define T_(i) (self->tr_->tr_.v[i])
+__CPROVER_ensures(__CPROVER_return_value.second[0] == other->second[0] && __CPROVER_return_value.second[1] == other->second[1] && __CPROVER_return_value.second[2] == other->second[2])
+#define EQN(a, b) ((a) == (b) || (__CPROVER_isnand(a) && __CPROVER_isnand(b)))
+#define D_(i) (other->first[i] - MUL(MUL(2, other->second[i]), T_(i)))                         /* d - 2 a t */
+#define G_(i) (MUL(other->second[i], MUL(T_(i), T_(i))) - MUL(other->first[i], T_(i)))         /* a t^2 - d t */
+__CPROVER_ensures(EQN(__CPROVER_return_value.first[0], D_(0)) && EQN(__CPROVER_return_value.first[1], D_(1)) && EQN(__CPROVER_return_value.first[2], D_(2)))
+__CPROVER_ensures(EQN(__CPROVER_return_value.zeroth, ((other->zeroth + G_(0)) + G_(1)) + G_(2)))
 {""" + pc.body + """}
 void h_tsq(void)
 {
-    Translation t; SurfaceTranslator s = {&t}; SimpleQuadric q; real_type x0, x1, x2;
-    g_x[0] = x0; g_x[1] = x1; g_x[2] = x2;
+    Translation t; SurfaceTranslator s = {&t}; SimpleQuadric q;
     STR_sq(&s, &q);
+    VERIF_CANARY();
+}
+""")
+
+
+def build_translate_sq_lemma(ctx):
+    return (HDR + """
+/* lemma (one axis; the three axes are independent and additive): with a' = a, d' = d - 2 a t, g' = a t^2 - d t the translated polynomial takes at x + t the value of the original at x */
+void h_tsq_lemma(void)
+{
+    int a, d, t, x;
+    __CPROVER_assume(a >= -7 && a <= 7 && d >= -7 && d <= 7 && t >= -7 && t <= 7 && x >= -7 && x <= 7);
+    int d2 = d - 2 * a * t, g2 = a * t * t - d * t;
+    __CPROVER_assert(a * (x + t) * (x + t) + d2 * (x + t) + g2 == a * x * x + d * x, "lemma.translate_sq: f'(x + t) == f(x)");
     VERIF_CANARY();
 }
 """)
@@ -66,8 +78,12 @@ def _tsq_argv(inputs, fl):
 REPLAY_C12 = {"src": "replay/c12.cc", "argv": _tsq_argv}
 
 UNITS = [
-    Unit("c12_translate_sq", build_translate_sq, "h_tsq", enforce="STR_sq", unwind=5, timeout=900, backend=["sat", "z3", "cvc5"], defines=["VERIF_REAL_AS_INT"],
-         bounded="real_type abstracted to exact integers, coefficients/translation/point in [-1000, 1000] (polynomial identity; floating-point rounding not covered)",
-         must_have=[r"STR_sq.postcondition"], checks=["--bounds-check", "--pointer-check", "--signed-overflow-check"], replay=REPLAY_C12,
-         note="SurfaceTranslator(SimpleQuadric): f'(x + t) == f(x) for every point x, every simple quadric and every translation (exact arithmetic)"),
+    Unit("c12_translate_sq", build_translate_sq, "h_tsq", enforce="STR_sq", unwind=5, timeout=900, backend=["sat", "cvc5"],
+         must_have=[r"STR_sq.postcondition"], checks=["--bounds-check", "--pointer-check"], replay=REPLAY_C12,
+         assumptions=["real multiplication treated as an uninterpreted commutative function (which products enter which coefficient is decided exactly; rounding of the products themselves is not)"],
+         note="SurfaceTranslator(SimpleQuadric): result coefficients equal those of f(x - t) expanded (a, d - 2at, g + sum(a t^2 - d t))"),
+    Unit("c12_translate_sq_lemma", build_translate_sq_lemma, "h_tsq_lemma", timeout=900, backend=["sat", "z3", "kissat"],
+         bounded="integers in [-7, 7]: 15^4 points (the identity has degree <= 2 in each variable, so 3 values per variable already determine it)",
+         must_have=[r"lemma.translate_sq"], checks=["--signed-overflow-check"],
+         note="lemma: the specified coefficients make f'(x + t) == f(x)"),
 ]
